@@ -25,6 +25,12 @@ def value_layouts(rng, tag, final_nl=True):
         (" %s,\n# inner comment %s\n z-%s\n" % (w, w, w), "%s,\n z-%s" % (w, w)),
         (" %s é中\n .\n end-%s\n" % (w, w), "%s é中\n .\n end-%s" % (w, w)),
     ]
+    if rng.random() < 0.05:          # size stress: long lines, many continuation lines
+        k = rng.choice([72, 73, 255, 256, 1023, 1024, 4095, 4096, 4097, 8192])
+        n = rng.choice([10, 11, 100, 101])
+        long1 = w + "y" * k
+        cont = "".join(" c%d-%s\n" % (i, w) for i in range(n))
+        opts = opts + [(" %s\n" % long1, long1)] * 3 + [(" %s\n%s" % (w, cont), ("%s\n%s" % (w, cont))[:-1])] * 3
     return opts
 
 
@@ -35,7 +41,14 @@ class Conc:
     def __init__(self, rng, start_doc, names=(1, 2, 3, 4, 5), canonical=False, final_newline=None,
                  unique_seps=False):
         pool = sorted(WORDS, key=str.lower)
+        if len(names) > len(pool):      # size stress: many names
+            pool = sorted(["%s-%03d" % (WORDS[i % len(WORDS)], i) for i in range(len(names))], key=str.lower)
         chosen = pool[:len(names)] if canonical else sorted(rng.sample(pool, len(names)), key=str.lower)
+        if not canonical and rng.random() < 0.12:
+            # size stress: field names of boundary lengths (the base word stays a prefix, so the
+            # lower-case sort order between names is unchanged)
+            L = rng.choice([16, 17, 31, 32, 33, 63, 64, 65, 72, 73, 127, 128, 129, 255, 256, 257])
+            chosen = [b if L <= len(b) + 1 else b + "-" + "x" * (L - len(b) - 1) for b in chosen]
         self.base = dict(zip(sorted(names), chosen))
         self.val = {}       # blob id -> (text after colon, readback)
         self.cmt = {0: ""}  # comment id -> text
@@ -425,12 +438,15 @@ def random_start_doc(rng, nnames=5):
 
     if rng.random() < 0.3:
         doc.append(sep())
-    npar = rng.randint(1, 3)
+    big = nnames > 12
+    npar = rng.randint(1, 3) if not big else rng.choice([1, 2, 9, 10, 11])
     for pi in range(npar):
         dup = rng.random() < 0.5
-        k = rng.randint(2 if dup else 1, 4)
+        k = rng.randint(2 if dup else 1, 4) if not big else rng.choice([9, 10, 11, 16, 17, 25])
+        if not dup:
+            k = min(k, nnames)
         if dup:
-            names = [rng.randint(1, nnames) for _ in range(k)]
+            names = [rng.randint(1, nnames if not big else 4) for _ in range(k)]   # big: ~k/4 occurrences per name
             if len(set(names)) == len(names):
                 names[-1] = names[0]
         else:
@@ -447,6 +463,8 @@ def random_start_doc(rng, nnames=5):
 
 def record_trace(rng, nops, ops, nnames=5):
     start = random_start_doc(rng, nnames)
+    if nnames > 12:
+        nops = nops * 4
     conc = Conc(rng, start, names=tuple(range(1, nnames + 1)), unique_seps=True)
     rank = {b.lower(): n for n, b in conc.base.items()}
     f = parse(conc.start_text(start))
@@ -467,7 +485,7 @@ def record_trace(rng, nops, ops, nnames=5):
         if present and rng.random() < 0.75:
             r = rng.choice(present)
         cnt = present.count(n)
-        i = rng.choice([-1, -1, 0, 0, 1, cnt - 1 if cnt else 0, cnt])
+        i = rng.choice([-1, -1, 0, 0, 1, cnt - 1 if cnt else 0, cnt, rng.randint(0, max(0, cnt - 1))])
         ri = rng.choice([-1, -1, 0, present.count(r) - 1 if r in present else 0])
         if i < -1:
             i = -1
@@ -550,10 +568,11 @@ def validate(ctx, traces, with_controls=True):
 def trace_leg(ctx, ntraces, nops, ops):
     import core
     traces = []
-    for _ in range(ntraces):
+    nbig = max(2, ntraces // 60)          # size stress: a few big documents (30 names, 10+ duplicates, 10 paragraphs)
+    for ti in range(ntraces + nbig):
         state = ctx.rng.getstate()
         try:
-            traces.append(record_trace(ctx.rng, nops, ops))
+            traces.append(record_trace(ctx.rng, nops, ops, nnames=5 if ti < ntraces else 30))
         except Exception as ex:
             if not core.raised_by_code_under_test(ex):
                 raise
